@@ -55,7 +55,7 @@ bool Hist::opLookups() {
     int n = 0, vk;
     int rounds = (int)o.geti("lookups", 10);
     for (int r = 0; r < rounds; ++r) {
-        int kind = rng.range(0, 13);
+        int kind = rng.range(0, 14);
         switch (kind) {
         case 0: C11_POS("data.frame", s.frames.size(), SFrame g = takeFrame(c.data().frame(i)), g == s.frames[i]); break;
         case 1: { if (s.frames.empty()) break; size_t f = rng.below(s.frames.size()); const SFrame& F = s.frames[f];
@@ -86,6 +86,15 @@ bool Hist::opLookups() {
         case 10: C11_POS("header.eventsTime", s.h.etimes.size(), uint32_t t = fbits(c.header().eventsTime(i)), t == s.h.etimes[i]); break;
         case 11: C11_POS("header.eventsDisplay", s.h.edisp.size(), size_t t = c.header().eventsDisplay(i), t == s.h.edisp[i]); break;
         case 12: C11_POS("header.eventsLabel", s.h.elab.size(), std::string t = c.header().eventsLabel(i), t == s.h.elab[i]); break;
+        case 13: { // caller-built containers may hold duplicate names: the FIRST exact match wins
+            static const char* nm[] = {"dupA", "dupB", "dupA", "other", "dupB", "dupA"};
+            Points P; SubFrame S; std::vector<std::string> names; size_t cnt = (size_t)rng.range(3, 6);
+            for (size_t k = 0; k < cnt; ++k) { Point p; p.name(nm[k]); p.x((float)k); P.point(p); Channel c; c.name(nm[k]); c.data((float)k); S.channel(c); names.push_back(nm[k]); }
+            std::string q = nameVariant(rng, nm[rng.below(cnt)], &vk);
+            size_t got = 0; C11_NAME("caller_points.pointIdx", names, q, got = P.pointIdx(q), (long)got == want);
+            C11_NAME("caller_points.point(name)", names, q, const Point& p = P.point(q), fbits(p.x()) == fbits((float)want));
+            C11_NAME("caller_subframe.channelIdx", names, q, got = S.channelIdx(q), (long)got == want);
+            C11_NAME("caller_subframe.channel(name)", names, q, const Channel& c2 = S.channel(q), fbits(c2.data()) == fbits((float)want)); break; }
         default: { // typed getters
             if (s.groups.empty()) break; size_t g = rng.below(s.groups.size()); const SGroup& G = s.groups[g]; if (G.params.empty()) break; size_t p = rng.below(G.params.size()); const SParam& Q = G.params[p];
             static const int types[4] = {ezc3d::BYTE, ezc3d::INT, ezc3d::FLOAT, ezc3d::CHAR}; static const char* tn[4] = {"valuesAsByte", "valuesAsInt", "valuesAsFloat", "valuesAsString"};
@@ -119,7 +128,7 @@ bool Hist::opRoundTrip(bool cont) {
     std::unique_ptr<ezc3d::c3d> ld; Outcome lo;
     log.pre("load"); VF_TRY(lo, ld.reset(new ezc3d::c3d(path)));
     log.ev("load", "path=" + path.substr(path.rfind('/') + 1), lo); bump("op:load");
-    bool judge = !wild && !gaps && !managedEdited && !offSpec;
+    bool judge = !wild && !gaps && !managedEdited && !offSpec && !fileOffSpec && !caseVariantNames;
     if (lo.threw) { if (judge) log.viol("C01", "reload_threw/" + lo.cls, lo.what + " shape " + shapeSig(prev)); else if (!gaps) bump("c01_skipped_wild_reload_threw"); return true; }
     Snap b = take(*ld);
     if (judge) {
@@ -260,7 +269,7 @@ void Hist::run() {
         Outcome so; VF_TRY(so, obj->write(b));
         snprintf(b, sizeof b, "%s/final_%ld.json", o.out.c_str(), idx);
         writeFileBytes(b, toJson(prev, true));
-        log.line("FINAL %s gaps=%d managedEdited=%d wild=%d offSpec=%d external=%d incomplete=%d", so.threw ? ("save_threw:" + so.cls).c_str() : "saved", hasGapsS(prev) ? 1 : 0, managedEdited ? 1 : 0, wild ? 1 : 0, offSpec ? 1 : 0, external ? 1 : 0, analogIncomplete ? 1 : 0);
+        log.line("FINAL %s gaps=%d managedEdited=%d wild=%d offSpec=%d external=%d incomplete=%d", so.threw ? ("save_threw:" + so.cls).c_str() : "saved", hasGapsS(prev) ? 1 : 0, managedEdited ? 1 : 0, wild ? 1 : 0, (offSpec || fileOffSpec || caseVariantNames) ? 1 : 0, external ? 1 : 0, analogIncomplete ? 1 : 0);
     }
     log.pre("destroy"); obj.reset();       // explicit destruction inside the monitored region
     Outcome none; log.ev("destroy", "", none);
